@@ -18,3 +18,7 @@ echo "=== spki"; $d/spki
 for a in f1 f2 f3 f6 f7 f8 f17; do echo "=== transport $a"; $d/transport $a 2>/dev/null | tail -n +4; done
 for k in 1 35; do echo "=== alloc f12 $k"; $d/alloc f12 $k 2>&1 | grep -E "F12|SEGV|#[0-2] " | head -4 || true; done
 echo "=== alloc f14"; $d/alloc f14 2>&1 | head -3
+clang $F -DNDEBUG $here/design_bgpsec.c $S -o $d/bgpsec $L
+echo "=== bgpsec (F5)"; $d/bgpsec 2>/dev/null | tail -1
+clang $F -O1 -DNDEBUG -fsanitize=thread $here/design_race.c $S -o $d/race $L
+echo "=== race (F10)"; $d/race 2>&1 | grep -E "WARNING: ThreadSanitizer|SUMMARY|#0 pfx" | head -6 || true
